@@ -267,7 +267,8 @@ def content(st, mid, idx):
     for (i, t) in ms.contents:
         if not z.entails_ne(i, idx):
             return (('amb', mid), ('amb', mid))
-    return (('stored', mid, idx, 0), ('stored', mid, idx, 1))
+    src = ms.replaced or mid      # (after `*place = new value` the untracked slots are the donor's, not the entry's)
+    return (('stored', src, idx, 0), ('stored', src, idx, 1))
 
 
 def set_content(st, mid, idx, tags, same_element=False):
